@@ -23,16 +23,28 @@ const WIN_LO: (i32, u32, u32) = (2019, 1, 1);
 const WIN_HI: (i32, u32, u32) = (2025, 12, 31);
 
 thread_local! {
-    static WINDOW_1900: std::cell::Cell<bool> = const { std::cell::Cell::new(false) };
+    /// 0: 2019..=2025; 1: start of the supported range; 2: around 2100 (a century year that is not leap)
+    static WINDOW: std::cell::Cell<u8> = const { std::cell::Cell::new(0) };
 }
 
 /// Window of the symbolic dates: 2019..=2025, or the start of the supported range (1899-11-01 ..
-/// 1901-03-01) for the templates tagged `@1900`.
+/// 1901-03-01) for the templates tagged `@1900`, or 2095-01-01..=2101-12-31 for those tagged `@2100`
+/// (the 8 years without a Feb 29 around 2100).
 fn window() -> (NaiveDate, NaiveDate) {
-    if WINDOW_1900.with(|w| w.get()) {
-        (date(1899, 11, 1), date(1901, 3, 1))
-    } else {
-        (date(WIN_LO.0, WIN_LO.1, WIN_LO.2), date(WIN_HI.0, WIN_HI.1, WIN_HI.2))
+    match WINDOW.with(|w| w.get()) {
+        1 => (date(1899, 11, 1), date(1901, 3, 1)),
+        2 => (date(2095, 1, 1), date(2101, 12, 31)),
+        _ => (date(WIN_LO.0, WIN_LO.1, WIN_LO.2), date(WIN_HI.0, WIN_HI.1, WIN_HI.2)),
+    }
+}
+
+fn in_window<R>(mode: u8, f: impl FnOnce() -> R) -> R {
+    WINDOW.with(|w| w.set(mode));
+    let r = std::panic::catch_unwind(std::panic::AssertUnwindSafe(f));
+    WINDOW.with(|w| w.set(0));
+    match r {
+        Ok(r) => r,
+        Err(p) => std::panic::resume_unwind(p),
     }
 }
 
@@ -134,7 +146,8 @@ fn date_year(d: &Date) -> Option<u16> {
 fn dated_intervals(start: &(Date, DateOffset), end: &(Date, DateOffset)) -> Vec<(NaiveDate, NaiveDate)> {
     let single = start.0 == end.0 && start.1 == end.1;
     let mut out = vec![];
-    let years = (WIN_LO.0 - 2)..=(WIN_HI.0 + 2);
+    let (wlo, whi) = window();
+    let years = (wlo.year() - 2)..=(whi.year() + 2);
     if single {
         for y in years {
             if let Some(d) = occurrence(&start.0, &start.1, y, Clamp::None) {
@@ -228,6 +241,11 @@ pub fn dated_family(thorough: bool) -> Vec<(String, MonthdayRange)> {
     push("easter", (Date::Easter { year: None }, DateOffset::default()), (Date::Easter { year: None }, DateOffset::default()));
     push("easter_m2_p1", with_off((Date::Easter { year: None }, DateOffset::default()), -2, WeekDayOffset::None), with_off((Date::Easter { year: None }, DateOffset::default()), 1, WeekDayOffset::None));
     push("y2022_easter", (Date::Easter { year: Some(2022) }, DateOffset::default()), (Date::Easter { year: Some(2022) }, DateOffset::default()));
+    // Easter against a fixed date INSIDE Easter's span (Mar 22..Apr 25): the two bounds swap order from year to
+    // year (2019 Apr 21, 2020 Apr 12, 2021 Apr 4, 2022 Apr 17, 2023 Apr 9, 2024 Mar 31, 2025 Apr 20), so some years
+    // wrap into the next one and two starts can share one end
+    push("easter_apr10", (Date::Easter { year: None }, DateOffset::default()), md(10, April));
+    push("apr10_easter", md(10, April), (Date::Easter { year: None }, DateOffset::default()));
     // offsets
     push("jan01_nextsu_p2", with_off(md(1, January), 2, WeekDayOffset::Next(Weekday::Sun)), with_off(md(1, January), 2, WeekDayOffset::Next(Weekday::Sun)));
     push("dec25_prevfr_dec31", with_off(md(25, December), 0, WeekDayOffset::Prev(Weekday::Fri)), md(31, December));
@@ -268,6 +286,13 @@ pub fn templates_dated(thorough: bool) -> Vec<Template> {
             Template::new(id, desc, move || dated_filter(&sel))
         })
         .collect();
+    for (id, sel) in dated_family(thorough) {
+        if !id.contains("feb29") || id.contains("y20") {
+            continue;
+        }
+        let desc = format!("MonthdayRange::Date filter on every day 2095-01-01..=2101-12-31 of `{sel}`");
+        out.push(Template::new(format!("{id}@2100"), desc, move || in_window(2, || dated_filter(&sel))));
+    }
     for (id, sel) in selector_family(thorough) {
         if id.starts_with("dated_") && !thorough {
             continue;
@@ -403,14 +428,16 @@ pub fn templates_hint(thorough: bool) -> Vec<Template> {
             continue;
         }
         let desc = format!("next_change_hint lemma for every d in 1899-11-01..=1901-03-01 and d2 in d+1..=d+{span} of day selector `{sel}`");
-        out.push(Template::new(format!("{id}@1900"), desc, move || {
-            WINDOW_1900.with(|w| w.set(true));
-            let r = std::panic::catch_unwind(std::panic::AssertUnwindSafe(|| hint_lemma(&sel, span)));
-            WINDOW_1900.with(|w| w.set(false));
-            if let Err(p) = r {
-                std::panic::resume_unwind(p);
-            }
-        }));
+        out.push(Template::new(format!("{id}@1900"), desc, move || in_window(1, || hint_lemma(&sel, span))));
+    }
+    // leap days around 2100: the next Feb 29 after 2096 is 8 years away (2100 is not a leap year)
+    let long_span = 3300;
+    for (id, sel) in selector_family(thorough) {
+        if !id.contains("feb29") || id.contains("y20") {
+            continue;
+        }
+        let desc = format!("next_change_hint lemma for every d in 2095..=2101 and d2 in d+1..=d+{long_span} of day selector `{sel}`");
+        out.push(Template::new(format!("{id}@2100"), desc, move || in_window(2, || hint_lemma(&sel, long_span))));
     }
     out
 }
